@@ -49,7 +49,7 @@ CHECKS.update({
                     "exactly the value law of the copying call over the entry values, and a refused call leaves numbers "
                     "and unit of the target unchanged; every ufunc and handler contract carries the frame of its inputs",
             "note": TRUST + "; NumPy's out= casting rule (same_kind) and buffer/view semantics are assumed contracts; "
-                    "augmented assignment reaches out= through NumPy's operator dispatch (not modelled); bounded driver pending",
+                    "augmented assignment reaches out= through NumPy's operator dispatch (not modelled): bounded driver c18 (in-place catalogue over views of larger buffers, 6-14 dtypes, every in-place handler) stands in for it and for machine-arithmetic effects",
             "technique": TECH},
 })
 CHECKS["C15"] = {
@@ -62,7 +62,7 @@ CHECKS["C15"] = {
             "(exhaustive), names that are both unit and constant are shown to be the same expression, names are "
             "single-valued",
     "note": TRUST + "; sympy simplification as the ground/symbolic evaluator; spec/constants.py; add_constants "
-            "(materialisation per registry / unit system) is not yet under contract",
+            "(materialisation per registry / unit system, histories of registries) is bounded only: driver c15",
     "technique": "ground + symbolic-identity obligations over tables extracted from the AST (sympy exact), part of the contract-based framework",
 }
 UFUNC_NOTE = ("; NumPy ufuncs are assumed element-wise scalar functions over reals (closed forms for "
@@ -82,7 +82,7 @@ CHECKS["C01"] = {
             "answer all-False/all-True, and on every raising path numbers, dtype and unit of every operand are "
             "unchanged; the ufunc -> unit-rule table is re-extracted from the AST and checked against the "
             "classification the statement implies; _get_conversion_factor raises exactly on dimension mismatch",
-    "note": TRUST + UFUNC_NOTE + "; array-function handlers and __setitem__ are not yet under contract",
+    "note": TRUST + UFUNC_NOTE + "; the merge guards of the array-function handlers are under contract (C06/C07 handler contracts carry the C01 clauses); __setitem__ and functions without a handler: bounded driver c01",
     "technique": TECH,
 }
 CHECKS["C04"] = {
@@ -95,7 +95,7 @@ CHECKS["C04"] = {
             "scale, so the law does not depend on what sympy cancels; re-expression invariance of whole expressions "
             "follows by induction over these per-call contracts",
     "note": TRUST + UFUNC_NOTE + "; real powers: rpow(s,1/2)**2 == s etc. and np.sqrt/np.cbrt facts are assumed; "
-            "binary power, reductions and dot are not yet under contract",
+            "binary power and reduce/accumulate forms are not under contract (bounded driver c04); quantity-class operands, one object passed twice and out= forms (separate target, operand, view of an operand's memory) are",
     "technique": TECH,
 }
 CHECKS["C08"] = {
@@ -107,7 +107,7 @@ CHECKS["C08"] = {
             "scale as required; two different offset scales are never combined; Unit.__mul__/__truediv__/__pow__ refuse "
             "offset units; conversions are the exact affine maps (C03 contract)",
     "note": TRUST + UFUNC_NOTE + "; table facts (which names carry a zero point, degree sizes of degC/degF) enter as "
-            "preconditions checked by C02's ground obligations; diff/ptp/ediff1d helpers not yet under contract",
+            "preconditions checked by C02's ground obligations; diff/ptp/ediff1d go through diff_helper, executed inline in their handler contracts (C07); unary powers of offset scales are refused (unary contracts)",
     "technique": TECH,
 }
 HANDLER_NOTE = ("; numpy's private implementations are uninterpreted functions (congruence only), their "
@@ -160,35 +160,64 @@ def _b(pid, text):
                    "technique": BTECH}
 
 
-_b("C09", "bounded: all 9 built-in equivalences x all 32 ordered member-dimension branches x 5x5 (thorough: all) input/target "
-          "units x keyword parameters x 9 call forms, value against the closed-form formula evaluated independently on SI "
-          "magnitudes, there-and-back, via-intermediate, copy purity, in-place = copy, uncovered requests refused; proved "
-          "(unbounded): the final unit conversion preserves the quantity and the copying routes never write their input. The "
-          "_convert formula branches are not yet under contract (they go through out= ufunc forms)")
+CHECKS["C09"] = {
+    "category": "proof",
+    "text": "Equivalence.convert is proved from its real body together with every _convert branch it dispatches to: for all 9 "
+            "equivalences and ARBITRARY input / target dimensions it raises InvalidUnitEquivalence exactly when the pair is not "
+            "covered and leaves the input untouched; for thermal, mass_energy, spectral (12 directions), number_density, "
+            "schwarzschild, compton and sound_speed (6 directions), for an input in ANY unit of the source dimension, any value, "
+            "any mu / gamma, the SI magnitude of the result equals the defining formula (spec/equivalence_formulas.py, written "
+            "from the statement) evaluated with the library's own constants, the result has the target dimension, the copying "
+            "form leaves its input untouched and the in-place form converts its input to the same quantity (array and quantity "
+            "inputs, integer input of the copying form). Every NumPy call inside a formula goes through "
+            "unyt_array.__array_ufunc__ by contract (the proved configuration of that call: quantity / scalar operands, one "
+            "object passed twice, out= naming an operand or a view of its memory); there-and-back and via-intermediate are 58 "
+            "lemmas over the proved postconditions; the final conversion to the requested unit is the in_units contract (C03). "
+            "Bounded only: the value law of lorentz (the subtraction contract gives no exact law when the pure-number unit of an "
+            "intermediate result is within 1e-9 of 1), effective_temperature (np.power has no contract), the entry points "
+            "to_equivalent / convert_to_equivalent / to_value and floating-point residuals: driver over all 9 equivalences x 32 "
+            "directions x units x parameters x 9 call forms",
+    "note": TRUST + "; unyt.physical_constants.<X> are symbolic positive quantities of the right dimension (their values are "
+            "C15's business); machine integers are mathematical (unsigned wrap-around in a formula is invisible to the "
+            "proof: bounded driver c17/c09)" + UFUNC_NOTE,
+    "technique": TECH,
+}
 _b("C10", "bounded: 7 built-in + pinned + generated user unit systems and code-unit registries x all 145 table atoms x "
           "compounds: same quantity, atoms inside the system, back conversion, agreement with get_base_equivalent and the "
           "in-place twins, idempotence, immediate usability, rejection of inconsistent bases; proved (unbounded): the numeric "
           "conversion step preserves the SI magnitude for all scales. The synthesis of the target unit is sympy factorisation: "
           "out of the verifier's reach")
 _b("C11", "bounded: 21 restoration routes (pickle protocols, copies, savetxt/loadtxt, str/repr re-parse, JSON) x registries x "
-          "about 150 follow-up operations on original and restored objects in both orders; proved (unbounded): the special "
-          "cases of Unit.__str__/__repr__ that persistence stores. Pickle / deepcopy / sympy identity are outside the "
-          "verifier's Python subset")
-_b("C12", "bounded: ALL histories of registry edits and observations up to length 3-4 (thorough 5-6) over a 3-symbol alphabet, "
-          "compared after every step with a fresh registry holding the net table, plus random histories of length 40 and "
-          "twin-registry memo checks; proved (unbounded): _lookup_unit_symbol writes exactly the row of the requested "
-          "prefixed symbol with scale = prefix x base and leaves the table unchanged when it raises")
-_b("C13", "bounded: operations on 2-3 registries created by ten routes (aliasing lut=, JSON, pickle, deepcopy, Unit.copy, ...) "
-          "with digests of every other registry, the default table, namespace exports and built-in conversions after each "
-          "step, each scenario in its own process; proved (unbounded): frame of _lookup_unit_symbol (writes only the table "
-          "passed in)")
-_b("C19", "bounded: allclose_units / assert_* / np.isclose / np.allclose / array_equal / accepts / returns over tolerance "
-          "scenarios fixed in SI magnitudes and written in every unit pair of 7 dimension groups, tolerances bare / "
-          "dimensionless / commensurable / incommensurable, decorators over all 62 exported dimensions; proved (unbounded): "
-          "Unit.__eq__ and same_dimensions_as decide by scale, offset and dimension vector only")
-_b("C20", "bounded: 28k (thorough 345k) strings from a grammar generator, token mutations and byte fuzz in four registries with "
-          "an independent tokenizer as vocabulary oracle and canaries against code execution; print/parse round trip over all "
-          "4191 names and random unit arithmetic; proved (unbounded): _split_prefix / _lookup_unit_symbol raise only "
-          "UnitParseError for every string and every table, Unit.__str__/__repr__ special cases. sympy's parser and printer "
-          "are outside the verifier's reach")
+          "about 185 follow-up operations on original and restored objects in both orders, including the registry every result "
+          "is bound to; proved (unbounded): the special cases of Unit.__str__/__repr__ that persistence stores, and that the "
+          "difference unit of two temperature points is bound to the operands' registry (found by the driver, repaired, now a "
+          "postcondition of _difference_units). Pickle / deepcopy / sympy identity are outside the verifier's Python subset")
+_b("C12", "proved (unbounded, per edit): UnitRegistry.add / modify / remove / _invalidate_caches against full-view postconditions "
+          "stated for an ARBITRARY key of the symbol table: the edited row holds exactly the data given, generated SI-prefixed "
+          "rows of the edited symbol are dropped, every other row is untouched, the string->Unit memo is emptied and the table "
+          "digest reset, refused edits add / change / remove no symbol; _lookup_unit_symbol writes exactly the row of the "
+          "requested prefixed symbol with scale = prefix x base; Unit.__new__ on a string returns a Unit bound to the registry it "
+          "was given. Bounded (histories are not a per-call property): ALL histories of registry edits and observations up to "
+          "length 3-4 (thorough 5-6) over a 3-symbol alphabet, compared after every step with a fresh registry holding the net "
+          "table, plus random histories of length 40 and twin-registry memo checks")
+_b("C13", "proved (unbounded, per call): the registry edits keep their own table and memo objects and write only into them; "
+          "_lookup_unit_symbol and `in` write only the table passed in, at most the generated row of the looked-up name; the "
+          "temperature difference unit is bound to the operands' registry. Bounded: operations on 2-3 registries created by ten "
+          "routes (aliasing lut=, JSON, pickle, deepcopy, Unit.copy, ...) with digests of every other registry, the default "
+          "table, namespace exports and built-in conversions after each step, each scenario in its own process")
+_b("C19", "proved (unbounded): allclose_units for one-element quantities in arbitrary units, a bare or unit-carrying atol and a "
+          "bare rtol decides |A - D| <= atol + rtol |D| on SI magnitudes (a bare atol read in the desired value's unit), is False "
+          "for different dimensions, and leaves its arguments untouched; assert_allclose_units raises exactly when it is False; "
+          "_has_dimensions decides by the dimension vector; Unit.__eq__ and same_dimensions_as decide by scale, offset and "
+          "dimension vector only. Bounded: np.isclose / np.allclose / array_equal / accepts / returns and multi-element shapes "
+          "over tolerance scenarios fixed in SI magnitudes and written in every unit pair of 7 dimension groups, decorators over "
+          "all 62 exported dimensions")
+_b("C20", "proved (unbounded): for EVERY string, parse_unyt_expr lets only UnitParseError escape (sympy's parser abstract: it may "
+          "raise anything or return anything); the structural walk _get_unit_data_from_expr over an arbitrary sympy expression "
+          "(Number, Symbol, Pow, Mul, other) and the string path of Unit.__new__ raise only UnitParseError and return a Unit "
+          "bound to the given registry; _split_prefix / _lookup_unit_symbol are total (empty name included) and raise only "
+          "UnitParseError for every string and every table; Unit.__str__/__repr__ special cases. Bounded: 28k (thorough 345k) "
+          "strings from a grammar generator, token mutations and byte fuzz in four registries with an independent tokenizer as "
+          "vocabulary oracle and canaries against code execution; print/parse round trip over all 4191 names and random unit "
+          "arithmetic (sympy's parser and printer are outside the verifier's reach)")
 NOT_APPLICABLE = {}
